@@ -466,6 +466,10 @@ func guard(name string, f func()) (panicked bool, val, stack string) {
 }
 
 func runTimeout(sp *caseSpec, res *caseResult) {
+	if strings.HasPrefix(sp.Name, "public/") {
+		runTimeoutPublic(sp, res)
+		return
+	}
 	T := time.Duration(sp.RT) * time.Millisecond
 	ctx, cancel := context.WithCancel(context.Background())
 	defer cancel()
